@@ -448,6 +448,14 @@ func runCase(c string) string {
 		return jbadRun(f)
 	case "vsrc":
 		return vsrcRun(f)
+	case "ctag":
+		return ctagRun(f[1], f[2:])
+	case "sdesc":
+		return sdescRun(f[1], f[2])
+	case "indext":
+		l, _ := strconv.Atoi(f[3])
+		p, _ := strconv.Atoi(f[4])
+		return indextRun(f[1], string(vh.UnHex(f[2])), l, p)
 	case "nosrc":
 		pre := f[2] == "1"
 		ps, _ := strconv.Atoi(f[3])
